@@ -318,3 +318,26 @@ PROPS["C13"] = {
         H("c13_keyid_from_fingerprint", "c13_fpr", "quick", 600, "Fingerprint accessors", FPR_F, "20/32 symbolic bytes"),
     ],
 }
+
+# ------------------------------------------------------------------------------------------------
+AEAD_F = ["crypto::aead::StreamEncryptor::{new,read,fill_buffer,create_final_auth_tag}", "crypto::aead::aead_setup_rfc9580", "crypto::aead::ChunkSize::{as_byte_size,try_from}", "util::fill_buffer"]
+AEAD_ASSUME = [FMT_STUBS, "AEAD primitive replaced by a model (identity cipher, tag = chunk-index octets of the nonce || AD length || AD tail) via "
+               "kani::stub(AeadAlgorithm::encrypt_in_place); the reference layout calls the same function, so native replay uses real AES-OCB/GCM/EAX",
+               "sha2::sha256::compress256 stubbed to a no-op (HKDF output is an opaque but shared value for implementation and reference)"]
+C12_H = [
+    H("c12_aead_enc_%d" % n, "c12_aead", tier, 1200, "SEIPDv2 StreamEncryptor over %d octets (symbolic octets at chunk edges): stream == RFC chunk/tag schedule" % n, AEAD_F, "N=%d, chunk 64" % n)
+    for n, tier in [(0, "quick"), (1, "quick"), (64, "thorough"), (65, "quick"), (70, "thorough"), (128, "thorough")]
+] + [H("c12_chunk_size_octets", "c12_aead", "quick", 300, "chunk size octet 0..255: legal iff <= 16, size = 2^(c+6)", AEAD_F, "all octets")]
+PROPS["C12"] = {
+    "inject": [("src/lib.rs", "c12_aead")],
+    "mem_gb": 14,
+    "level_text": "Bounded model checking of the real SEIPDv2 stream writer against an independent RFC 9580 5.13.2 schedule (per-chunk nonce "
+                  "= IV||index, AD = info, final AD = info||total octets, info = D2 02 cipher aead chunk), with the AEAD primitive as a model "
+                  "that exposes nonce index and AD in the tag.",
+    "level_note": "Bounds: chunk size 64 (smallest legal), plaintext 0..128 octets with symbolic octets at chunk edges, AES128 x {EAX,OCB,GCM}. "
+                  "The primitives, SEIPDv1/CFB, SKESK, S2K iteration streams, ECDH KDF and secret-key protection are outside (see DESIGN.md).",
+    "bounds": "plaintext lengths {0,1,64,65,70,128}, chunk size 64, AES128, 3 AEAD modes",
+    "outside": "AEAD/HKDF/SHA-2 internals; chunk sizes > 64 as data; SEIPDv1; S2K; ECDH/X25519 wrap; reader side",
+    "assumptions": AEAD_ASSUME,
+    "harnesses": C12_H,
+}
